@@ -153,6 +153,18 @@ def run(ctx):
     cnt = {"must": 0, "never": 0, "may": 0, "obs": 0}
     drift, real_sigs = [], {}
     good_fsm = good_opt = None
+    for l in lines:
+        if good_fsm and good_opt:
+            break
+        e = json.loads(l)
+        if good_fsm is None and e["op"] == "fsm" and not e["sme"] and e["ev"][0]["k"] == "S" and e["ev"][0]["res"] == "acc":
+            good_fsm = e
+        if good_opt is None and e["op"] == "opt" and e["ev"][0]["syn"] and e["ev"][0]["res"] == "acc":
+            good_opt = e
+    if not (good_fsm and good_opt):
+        raise vlib.Infra("no pristine observation found for the binding self-test")
+    pool = ThreadPoolExecutor(max_workers=1)
+    st_f = pool.submit(self_test, good_fsm, good_opt)      # runs beside the validation of the real trace
     for ci in range(0, len(lines), chunk):
         part = lines[ci:ci + chunk]
         cp = os.path.join(wd, "chunk.ndjson")
@@ -171,21 +183,14 @@ def run(ctx):
             sig = {"what": b["what"], "reason": b["reason"], "ph": b["ph"], "k": b["k"], "rel": b["rel"], "sme": b["sme"],
                    "at": "%s:%s:%s" % (b["ph"], b["k"], b["rel"])}
             real_sigs[(b["reason"], b["ph"], b["k"], b["rel"], b["sme"])] = line
-            V.reject(sig, {"observation_index": b["at"][2], "answer": b["res"], "scenario": line,
-                           "rerun": "harness/cmd/tcpfsm -scenarios <file with the scenario as {t,sme,pk} / {t,ops}>"})
-    for l in lines:
-        if good_fsm and good_opt:
-            break
-        e = json.loads(l)
-        if good_fsm is None and e["op"] == "fsm" and not e["sme"] and e["ev"][0]["k"] == "S" and e["ev"][0]["res"] == "acc":
-            good_fsm = e
-        if good_opt is None and e["op"] == "opt" and e["ev"][0]["syn"] and e["ev"][0]["res"] == "acc":
-            good_opt = e
-    selftests = 0
-    if good_fsm and good_opt:
-        selftests = self_test(good_fsm, good_opt)
-    else:
-        raise vlib.Infra("no pristine observation found for the binding self-test")
+            if line["op"] == "fsm":
+                inp = {"t": "fsm", "sme": line["sme"], "pk": [[e["k"], e["d"]] for e in line["ev"]]}
+            else:
+                inp = {"t": "opt", "ops": [{k: e[k] for k in ("d", "syn", "mss", "ws", "win", "len", "has", "diff")} for e in line["ev"]]}
+            V.reject(sig, {"observation_index": b["at"][2], "answer": b["res"], "recorded": line, "scenario_input": inp,
+                           "rerun": "write scenario_input as one line to f.ndjson; out/bin/tcpfsm -scenarios f.ndjson -trace t.ndjson"})
+    selftests = st_f.result()
+    pool.shutdown()
 
     # finding candidates of the model vs. what the real code did
     cands = []
